@@ -362,6 +362,13 @@ func rulesC11(p *Prog, r *Report) {
 		}
 	}
 
+	{
+		skip := map[*ssa.Function]bool{}
+		for _, f := range limitFns {
+			skip[f] = true
+		}
+		limitSweepTwins(p, r, skip)
+	}
 	// R11.5 limit-bid books -------------------------------------------------------------------
 	r.Rule("R11.5", "limit-bid record and protocol total move together, by the custody amount, under one key", 6)
 	getLB := p.MustFunc("x/auctionsV2/keeper.Keeper.GetUserLimitBidData")
@@ -528,6 +535,30 @@ func (p *Prog) fromRecordFieldsLoose(v ssa.Value, typs map[string]bool, fields m
 		}
 	}
 	return hit
+}
+
+// fromRecordFieldsUp: fromRecordFieldsLoose, and when the value is a parameter of an
+// extracted helper, what the call sites pass for it.
+func (p *Prog) fromRecordFieldsUp(v ssa.Value, typs map[string]bool, fields map[string]bool) bool {
+	if p.fromRecordFieldsLoose(v, typs, fields) {
+		return true
+	}
+	prev := p.throughPureOn
+	p.throughPureOn = true
+	os := p.UpOrigins(p.DeepOrigins(v), 0)
+	p.throughPureOn = prev
+	for _, o := range os {
+		for i := len(o.Path) - 1; i >= 0; i-- {
+			if fields[o.Path[i]] {
+				sub := o
+				sub.Path = o.Path[:i+1]
+				if typs[pathBaseTypeName(sub)] {
+					return true
+				}
+			}
+		}
+	}
+	return false
 }
 
 // condReadsField: the condition reads one of the named fields of some record.
